@@ -14,6 +14,7 @@ type Feat struct {
 	DeepBias       bool // new scopes preferably below the deepest existing one
 	Export         bool
 	Objects        bool
+	EmbedObjs      bool // nested parameter objects may be embedded (anonymous) fields
 	Optional       bool
 	Soft           bool
 	Flatten        bool
@@ -22,14 +23,17 @@ type Feat struct {
 	GroupDecs      bool
 	Variadic       bool
 	PVariadic      float64
+	PWide          float64 // probability of a function with 13-18 parameters
 	Callbacks      bool
 	Info           bool
+	LocPC          bool // LocationForPC on some declared constructors (C18: IDs are still per function)
 	NamedSlice     bool
 	Wild           float64 // probability that a constructor ignores the rank discipline
 	PAvail         float64 // probability of picking an available dependency
 	PDup           float64 // probability of deliberately colliding with a provided key
 	FaultRate      float64
 	FaultInv       float64
+	FaultCB        float64 // probability that a function's callback panics
 	PRetry         float64
 	Slow           bool
 	VisStr         float64 // probability weight of Visualize/String ops
@@ -39,7 +43,8 @@ type Feat struct {
 	VisAfterInvoke float64
 	PErrFirst      float64
 	PReenter       float64
-	DecoIntroduce  bool // allow decorators for keys nobody provides (DESIGN §9 R3)
+	PThenProvide   float64 // probability that an invoked function registers a constructor from its body
+	DecoIntroduce  bool    // allow decorators for keys nobody provides (DESIGN §9 R3)
 }
 
 type genCtx struct {
@@ -53,7 +58,11 @@ type genCtx struct {
 	lastInvoke int
 	catUsed    map[int]bool
 	tmpl       func(g *genCtx)
+
+	pendingThen *thenReg
 }
+
+type thenReg struct{ scope, fn int }
 
 func (g *genCtx) newFunc(role Role) *Func {
 	g.h.Funcs = append(g.h.Funcs, Func{ID: len(g.h.Funcs), Role: role, Cat: -1})
@@ -67,6 +76,7 @@ func (g *genCtx) newFunc(role Role) *Func {
 	}
 	if g.ft.Info && g.r.P(0.8) {
 		f.Info = true
+		f.ReuseInfo = g.r.P(0.25)
 	}
 	return f
 }
@@ -218,20 +228,24 @@ func (g *genCtx) encodeParams(keys []Key, role Role) []Param {
 			}
 		}
 	}
-	var conv func(n *pnode) Param
-	conv = func(n *pnode) Param {
+	var conv func(n *pnode, nested bool) Param
+	conv = func(n *pnode, nested bool) Param {
 		if n.leaf != nil {
 			return *n.leaf
 		}
-		o := Param{Kind: PObj}
+		o := Param{Kind: PObj, Embed: nested && g.ft.EmbedObjs && g.r.P(0.4)}
 		for _, f := range n.fields {
-			o.Fields = append(o.Fields, conv(f))
+			o.Fields = append(o.Fields, conv(f, true))
+		}
+		for nested && g.r.P(0.2) {
+			// one more level of nesting (In -> In -> In -> field)
+			o = Param{Kind: PObj, Fields: []Param{o}, Embed: g.ft.EmbedObjs && g.r.P(0.3)}
 		}
 		return o
 	}
 	var out []Param
 	for _, n := range top {
-		out = append(out, conv(n))
+		out = append(out, conv(n, false))
 	}
 	return out
 }
@@ -338,6 +352,9 @@ func (g *genCtx) genCtor(s int) *Func {
 		f.ErrExtra = g.r.Range(1, 2) // two error results: the other one stays nil
 	}
 	f.Reenter = g.r.P(ft.PReenter)
+	if f.Reenter {
+		g.reenterShape(f, s)
+	}
 	maxT := minT
 	wild := g.r.P(ft.Wild)
 	if wild {
@@ -346,10 +363,17 @@ func (g *genCtx) genCtor(s int) *Func {
 	np := 0
 	if maxT > 0 {
 		np = g.r.Intn(g.ft.MaxParams + 1)
+		if g.r.P(ft.PWide) {
+			np = g.r.Range(13, 18)
+		}
 	}
 	f.Params = g.encodeParams(g.pickParamKeys(s, maxT, np, false), RoleCtor)
+	if np >= 13 && g.r.P(0.7) {
+		f.Params = oneObject(f.Params)
+	}
 	f.Variadic = ft.Variadic && g.r.P(ft.PVariadic)
-	f.Callback = ft.Callbacks && g.r.P(0.5)
+	f.OptNoise = g.r.P(0.06)
+	f.Callback = f.Callback || (ft.Callbacks && g.r.P(0.5))
 	return f
 }
 
@@ -359,7 +383,13 @@ func (g *genCtx) genInvoke(s int) *Func {
 	if g.r.P(0.05) {
 		n = 0
 	}
+	if g.r.P(g.ft.PWide) {
+		n = g.r.Range(13, 18) // a very wide parameter list / parameter object
+	}
 	f.Params = g.encodeParams(g.pickParamKeys(s, g.ft.NT, n, true), RoleInv)
+	if n >= 13 {
+		f.Params = oneObject(f.Params)
+	}
 	f.HasErr = g.r.P(0.5)
 	f.Variadic = g.ft.Variadic && g.r.P(g.ft.PVariadic)
 	return f
@@ -468,6 +498,9 @@ func (g *genCtx) genDecorator(s int) *Func {
 			for _, p := range f.LeafParams() {
 				if p.Key == lr[0].Keys[0] {
 					f.Reenter = true
+					if g.r.P(0.4) {
+						f.ReCB, f.Callback = true, true
+					}
 				}
 			}
 		}
@@ -584,6 +617,7 @@ func (g *genCtx) catCtor(s int) *Func {
 	f := g.fromCatalog(idx)
 	f.Export = g.ft.Export && s != 0 && g.r.P(0.3)
 	f.Callback = g.ft.Callbacks && g.r.P(0.6)
+	f.LocPC = g.ft.LocPC && g.r.P(0.3)
 	return f
 }
 
@@ -666,7 +700,27 @@ func (g *genCtx) opInvoke(s int) {
 	} else {
 		f = g.genInvoke(s)
 	}
+	if !g.ft.Catalog && g.r.P(g.ft.PThenProvide) {
+		// the invoked function lazily registers a constructor before it returns
+		ps := g.pickScope()
+		fid := f.ID
+		ctor := g.genCtor(ps)
+		ctor.Callback, ctor.Info = false, false
+		f = &g.h.Funcs[fid] // genCtor may have grown the slice
+		f.ThenProvide, f.ThenScope = ctor.ID+1, ps
+		g.pendingThen = &thenReg{scope: ps, fn: ctor.ID}
+	}
 	g.addOp(Op{Kind: OpInvoke, Scope: s, Fn: f.ID})
+	if g.pendingThen != nil {
+		// the generator's own model follows optimistically (as if the Invoke
+		// reaches the function's body)
+		t := g.pendingThen
+		g.pendingThen = nil
+		if g.m.PredictProvide(t.scope, &g.h.Funcs[t.fn]) == PredOK {
+			g.m.AddCtor(t.scope, len(g.h.Ops)-1, &g.h.Funcs[t.fn])
+		}
+		return // no retry of an Invoke that registers something
+	}
 	for g.r.P(g.ft.PRetry) {
 		g.retryInvoke(s, f.ID)
 	}
@@ -723,6 +777,18 @@ func (g *genCtx) genFaults() {
 		}
 		g.h.Faults = append(g.h.Faults, fl)
 	}
+	for i := range g.h.Funcs {
+		f := &g.h.Funcs[i]
+		if f.Callback && f.Role != RoleInv && g.r.P(g.ft.FaultCB) {
+			// the callback panics (never recovered by dig): whatever the
+			// function committed must stay, nothing runs twice
+			fl := Fault{Fn: f.ID, From: 0, To: 1, Kind: FaultCBPanic}
+			if g.r.P(0.3) {
+				fl.To = -1
+			}
+			g.h.Faults = append(g.h.Faults, fl)
+		}
+	}
 }
 
 // BaseFeat draws the swarm configuration of a run.
@@ -750,8 +816,18 @@ func BaseFeat(r *Rng, thorough bool) Feat {
 	if r.P(0.7) {
 		ft.Groups = []string{"g1", "g2"}[:r.Range(1, 2)]
 	}
+	if r.P(0.15) {
+		// keys that differ only in blanks are different keys
+		if len(ft.Names) > 0 {
+			ft.Names = append(ft.Names, ft.Names[0]+" ")
+		}
+		if len(ft.Groups) > 0 {
+			ft.Groups = append(ft.Groups, ft.Groups[0]+" ")
+		}
+	}
 	ft.Export = r.P(0.6)
 	ft.Objects = r.P(0.8)
+	ft.EmbedObjs = r.P(0.4)
 	ft.Optional = r.P(0.6)
 	ft.Soft = r.P(0.5)
 	ft.Flatten = r.P(0.6)
@@ -759,7 +835,10 @@ func BaseFeat(r *Rng, thorough bool) Feat {
 	ft.Decorators = r.P(0.6)
 	ft.GroupDecs = r.P(0.5)
 	ft.Variadic = r.P(0.3)
+	ft.NamedSlice = r.P(0.25)
 	ft.PVariadic = []float64{0.1, 0.1, 0.4}[r.Intn(3)]
+	ft.PWide = []float64{0, 0, 0.03}[r.Intn(3)]
+	ft.PThenProvide = []float64{0, 0, 0.06}[r.Intn(3)]
 	ft.Info = r.P(0.3)
 	ft.PErrFirst = []float64{0, 0.15, 0.3}[r.Intn(3)]
 	if r.P(0.2) {
@@ -828,6 +907,10 @@ func newGen(prop string, seed, run int64, thorough bool) *genCtx {
 	if r.P(0.35) {
 		// some universe positions are struct values instead of pointers
 		g.h.Cfg.ValMask = uint32(r.U64()) & uint32(r.U64()) & (1<<NumK - 1)
+	}
+	if r.P(0.2) {
+		// some positions are same-named types of another package "sim"
+		g.h.Cfg.AltMask = uint32(r.U64()) & uint32(r.U64()) & (1<<NumK - 1)
 	}
 	g.m = NewModel(g.h.Cfg.Defer)
 	return g
@@ -1132,5 +1215,29 @@ func (g *genCtx) tmplSliceMembers() {
 	if g.r.P(0.6) {
 		feeder()
 		request()
+	}
+}
+
+// oneObject puts every leaf parameter into a single flat parameter object.
+func oneObject(ps []Param) []Param {
+	var leaves []Param
+	collectParams(ps, &leaves)
+	return []Param{{Kind: PObj, Fields: leaves}}
+}
+
+// reenterShape decides what the re-entrant function asks for: its own first
+// result (default), or -- a nested demand through a different path -- any key
+// from any scope; from its body, or from its callback if it has one.
+func (g *genCtx) reenterShape(f *Func, s int) {
+	if g.r.P(0.5) {
+		rs := g.pickScope()
+		if ks := g.pickParamKeys(rs, g.ft.NT, 1, true); len(ks) == 1 {
+			k := ks[0]
+			f.ReKey, f.ReScope = &k, rs
+		}
+	}
+	f.ReCB = g.r.P(0.4)
+	if f.ReCB {
+		f.Callback = true
 	}
 }
